@@ -49,6 +49,7 @@ func init() {
 	mergeSpecials["services.*.build.additional_contexts"] = mergeToSequence
 	mergeSpecials["services.*.build.extra_hosts"] = mergeExtraHosts
 	mergeSpecials["services.*.build.labels"] = mergeToSequence
+	mergeSpecials["services.*.build.ssh"] = mergeToSequence
 	mergeSpecials["services.*.command"] = override
 	mergeSpecials["services.*.depends_on"] = mergeDependsOn
 	mergeSpecials["services.*.deploy.labels"] = mergeToSequence
